@@ -52,3 +52,11 @@ Example C11_nonvacuous :
   os_from_u16 30 = Some "KEY_A"%string /\ str_to_oscode "a" = Some "KEY_A"%string /\
   osc_to_kc "KEY_A" = Some "A"%string /\ out_filter 676 = [] /\ out_filter 30 = [30].
 Proof. vm_compute. repeat split; reflexivity. Qed.
+
+(* mouse buttons (tables regenerated from output_logic.rs `osc_to_btn` and keys/linux.rs `From<Btn> for OsCode`): a code that
+   kanata reads as a button is written to the OS, on Linux, as that same code *)
+From KV Require Import Gen.Consts Kanata.Glue Proofs.ConstsAgree.
+Theorem C11_mouse_button_codes_round_trip : forall code b,
+  btn_of_code code = Some b -> In (b, code) src_btn_to_osc.
+Proof. exact every_button_code_comes_out_as_itself. Qed.
+Print Assumptions C11_mouse_button_codes_round_trip.
